@@ -8,10 +8,10 @@
 (* get_days_and_seconds (year = the mode's common-year length, month = 30  *)
 (* days).  Integers only.  Abs(x) of Val.tla maps a stored duration to the *)
 (* abstract <<years, months, exact length>> value on which C11 is stated.  *)
-(* Knobs: EqIgnoresMonthSign, AddDropsMonthsOnMixedSigns (seeded faults).  *)
+(* Knobs: EqIgnoresMonthSign, AddDropsMonthsOnMixedSigns, StdDropsDayCarry. *)
 (***************************************************************************)
 EXTENDS Ops
-CONSTANTS EqIgnoresMonthSign, AddDropsMonthsOnMixedSigns
+CONSTANTS EqIgnoresMonthSign, AddDropsMonthsOnMixedSigns, StdDropsDayCarry
 
 \* stored form: [wk |-> BOOLEAN, w, y, mo, d, h, mi, s]
 Wk(n) == [wk |-> TRUE, w |-> n, y |-> 0, mo |-> 0, d |-> 0, h |-> 0, mi |-> 0, s |-> 0]
@@ -49,7 +49,7 @@ IToWeeks(a) == IF a.wk THEN a ELSE IF a.d \div 7 = 0 THEN Un(0, 0, 0, 0, 0, 0) E
 IStd(a) == IF a.wk THEN a
            ELSE LET mi1 == a.mi + (a.s \div 60)
                     h1  == a.h + (mi1 \div 60)
-                IN Un(a.y, a.mo, a.d + (h1 \div 24), h1 % 24, mi1 % 60, a.s % 60)
+                IN Un(a.y, a.mo, a.d + (IF StdDropsDayCarry THEN 0 ELSE h1 \div 24), h1 % 24, mi1 % 60, a.s % 60)
 IBool(a) == IF a.wk THEN a.w # 0 ELSE ~(a.y = 0 /\ a.mo = 0 /\ a.d = 0 /\ a.h = 0 /\ a.mi = 0 /\ a.s = 0)
 Same8(x, e) == x.wk = e.wk /\ (IF e.wk THEN x.w = e.w
                               ELSE x.y = e.y /\ x.mo = e.mo /\ x.d = e.d /\ x.h = e.h /\ x.mi = e.mi /\ x.s = e.s)
